@@ -1008,10 +1008,47 @@ def v2_gen_program(rng, st):
 
 # ---- expansion model correspondence (fragment of V2/Expand.v)
 
+def _dnf(t):
+    """Disjunctive normal form of a group tree, in the order normalize_element_groups produces it."""
+    if t[0] == "atom":
+        return [[t[1]]]
+    if t[0] == "or":
+        out = []
+        for c in t[1]:
+            out += _dnf(c)
+        return out
+    res = [[]]
+    for c in t[1]:
+        n = _dnf(c)
+        res = [r + x for r in res for x in n]
+    return res
+
+
+def _group_src(t, top=True):
+    if t[0] == "atom":
+        return t[2]
+    s = f" {t[0]} ".join(_group_src(c, False) for c in t[1])
+    return s if top else f"({s})"
+
+
+def _gen_group(rng, atoms, depth=2):
+    """Random and/or tree over (kind, source text) atoms; sub-groups always parenthesised."""
+    if depth == 0 or rng.random() < 0.4:
+        k, src = rng.choice(atoms)
+        return ("atom", k, src)
+    op = rng.choice(["and", "or"])
+    return (op, [_gen_group(rng, atoms, depth - 1 if rng.random() < 0.7 else 0) for _ in range(rng.choice([2, 2, 3]))])
+
+
+FRAG_PRELUDE = "flow a\n  match EvA()\nflow b\n  match EvB()\nflow c\n  match EvC()\n  abort\n"
+EV_ATOMS = [("event", "EvA()"), ("event", "EvB()"), ("event", "EvC()"), ("event", "EvD()")]
+RUN_ATOMS = [("flow", "a"), ("flow", "b"), ("flow", "c"), ("action", 'UtteranceBotAction(script="x")'),
+             ("action", 'TimerBotAction(timer_name="t", duration=1.0)')]
+
+
 def v2_gen_fragment(rng, st):
     """(source, stmt tree) of a random program inside the fragment V2/Expand.v models."""
-    L = ["flow main", "  $v = 0"]
-    EV = ["EvA()", "EvB()", "EvC()", "EvD()"]
+    L = [FRAG_PRELUDE + "flow main", "  $v = 0"]
 
     def block(ind, depth, in_loop, is_else=False):
         pad = "  " * ind
@@ -1027,26 +1064,37 @@ def v2_gen_fragment(rng, st):
             if j == n:
                 break
             r = rng.random()
-            if depth > 0 and r < 0.17 and not (is_else and j == 0 and jump_at != 0):
+            if depth > 0 and r < 0.15 and not (is_else and j == 0 and jump_at != 0):
                 L.append(f"{pad}if $v < {rng.randrange(3)}")
                 th = block(ind + 1, depth - 1, in_loop)
+                elifs = []
+                for _ in range(rng.choice([0, 0, 0, 1, 2])):
+                    L.append(f"{pad}elif $v == {rng.randrange(3)}")
+                    elifs.append(block(ind + 1, depth - 1, in_loop))
+                    st["x_elif"] += 1
                 el = []
                 if rng.random() < 0.6:
                     L.append(f"{pad}else")
                     el = block(ind + 1, depth - 1, in_loop, True)
+                # the transformer turns `elif` into an If that is the whole else branch of the previous one
+                for body in reversed(elifs):
+                    el = [("if", body, el)]
                 out.append(("if", th, el))
                 st["x_if"] += 1
-            elif depth > 0 and r < 0.32:
+            elif depth > 0 and r < 0.28:
                 L.append(f"{pad}while $v < {rng.randrange(1, 4)}")
                 out.append(("while", block(ind + 1, depth - 1, True)))
                 st["x_while"] += 1
-            elif depth > 0 and r < 0.50:
+            elif depth > 0 and r < 0.44:
                 cases = []
-                L.append(f"{pad}when {rng.choice(EV)}")
-                cases.append(block(ind + 1, depth - 1, in_loop))
-                for _ in range(rng.choice([0, 0, 1, 2])):
-                    L.append(f"{pad}or when {rng.choice(EV)}")
-                    cases.append(block(ind + 1, depth - 1, in_loop))
+                for ci in range(rng.choice([1, 1, 2, 3])):
+                    # trigger: one event / flow / action, or an and-group of them
+                    members = [rng.choice(EV_ATOMS + RUN_ATOMS) for _ in range(rng.choice([1, 1, 1, 2, 3]))]
+                    L.append(f"{pad}{'when' if ci == 0 else 'or when'} " + " and ".join(m[1] for m in members))
+                    cases.append(([m[0] for m in members], block(ind + 1, depth - 1, in_loop)))
+                    for m in members:
+                        st["x_case_" + m[0]] += 1
+                    st["x_case_and_group"] += 1 if len(members) > 1 else 0
                 els = None
                 if rng.random() < 0.55:
                     L.append(f"{pad}else")
@@ -1055,32 +1103,34 @@ def v2_gen_fragment(rng, st):
                 out.append(("when", cases, els))
                 st["x_when"] += 1
             else:
-                k = rng.randrange(12)
+                k = rng.randrange(16)
                 if k < 2:
                     L.append(f"{pad}$v = $v + 1")
                     out.append(("plain",))
                 elif k < 4:
                     L.append(f"{pad}" + rng.choice(["match EvX()", "send Out1()"]))
                     out.append(("block",))
-                elif k == 4:
-                    m = rng.choice([2, 2, 3])
-                    L.append(f"{pad}match " + " or ".join(rng.choice(EV) for _ in range(m)))
-                    out.append(("matchor", m))
-                    st["x_or"] += 1
-                elif k == 5:
-                    m = rng.choice([2, 2, 3])
-                    L.append(f"{pad}match " + " and ".join(rng.choice(EV) for _ in range(m)))
-                    out.append(("matchand", m))
-                    st["x_and"] += 1
-                elif k in (6, 7) and in_loop:
-                    L.append(f"{pad}break")
-                    out.append(("break",))
-                    st["x_break"] += 1
-                elif k == 8 and in_loop:
-                    L.append(f"{pad}continue")
-                    out.append(("continue",))
-                    st["x_continue"] += 1
-                elif k == 9 and rng.random() < 0.4:
+                elif k < 7:
+                    g = _gen_group(rng, EV_ATOMS)
+                    L.append(f"{pad}match {_group_src(g)}")
+                    out.append(("match", [len(x) for x in _dnf(g)]))
+                    st["x_match"] += 1
+                elif k < 9:
+                    g = _gen_group(rng, RUN_ATOMS)
+                    L.append(f"{pad}start {_group_src(g)}")
+                    out.append(("start", _dnf(g)))
+                    st["x_start"] += 1
+                elif k < 12:
+                    g = _gen_group(rng, RUN_ATOMS)
+                    L.append(f"{pad}{rng.choice(['await ', 'await ', '' if g[0] == 'atom' and g[1] == 'flow' else 'await '])}{_group_src(g)}")
+                    out.append(("await", _dnf(g)))
+                    st["x_await"] += 1
+                elif k == 12:
+                    m = rng.choice([1, 1, 2, 3])
+                    L.append(f"{pad}activate " + " and ".join(rng.choice(["a", "b"]) for _ in range(m)))
+                    out.append(("activate", m))
+                    st["x_activate"] += 1
+                elif k == 13 and rng.random() < 0.4:
                     w = rng.choice(["return", "abort"])
                     L.append(f"{pad}{w}")
                     out.append((w,))
@@ -1093,6 +1143,10 @@ def v2_gen_fragment(rng, st):
     return "\n".join(L) + "\n", tree
 
 
+def _coq_atoms(g):
+    return C.coq_list([{"flow": "AFlow", "action": "AAction"}[a] for a in g])
+
+
 def v2_coq_stmts(tree):
     out = []
     for s in tree:
@@ -1103,13 +1157,18 @@ def v2_coq_stmts(tree):
             out.append(f"SIf {v2_coq_stmts(s[1])} {v2_coq_stmts(s[2])}")
         elif k == "while":
             out.append(f"SWhile {v2_coq_stmts(s[1])}")
-        elif k == "matchor":
-            out.append(f"SMatchOr {s[1]}")
-        elif k == "matchand":
-            out.append(f"SMatchAnd {s[1]}")
+        elif k == "match":
+            out.append("SMatch " + C.coq_list([str(x) for x in s[1]]))
+        elif k == "start":
+            out.append("SStart " + C.coq_list([_coq_atoms(g) for g in s[1]]))
+        elif k == "await":
+            out.append("SAwait " + C.coq_list([_coq_atoms(g) for g in s[1]]))
+        elif k == "activate":
+            out.append(f"SActivate {s[1]}")
         else:
             els = "None" if s[2] is None else f"(Some {v2_coq_stmts(s[2])})"
-            out.append(f"SWhen {C.coq_list([v2_coq_stmts(c) for c in s[1]])} {els}")
+            trig = {"event": "MEvent", "flow": "MFlow", "action": "MAction"}
+            out.append("SWhen " + C.coq_list([f"({C.coq_list([trig[m] for m in c[0]])}, {v2_coq_stmts(c[1])})" for c in s[1]]) + f" {els}")
     return C.coq_list(out)
 
 
@@ -1412,7 +1471,8 @@ def run(tier, seed, replay=None):
     # ------------------------------------------------------------------ Colang 2.x
     st2 = {k: 0 for k in ("if", "while", "when", "orwhen", "when_else", "match", "await", "start", "activate",
                           "break", "continue", "label", "group_and", "group_or", "jump_in_nested_block",
-                          "x_if", "x_while", "x_when", "x_when_else", "x_or", "x_and", "x_break", "x_continue")}
+                          "x_if", "x_elif", "x_while", "x_when", "x_when_else", "x_match", "x_start", "x_await", "x_activate",
+                          "x_case_event", "x_case_flow", "x_case_action", "x_case_and_group", "x_break", "x_continue")}
     v2_sources = []   # (origin, src)
     given_events = {}
     for i, x in enumerate(_corpus("v2-source")):
